@@ -541,12 +541,48 @@ pub fn run_engine_shard(rng: &mut Rng, shard: &mut Shard, max_tx: u64) {
     set_sink(prev);
 }
 
+/// Second in-engine workload: the shared mixed-ledger generator of rv-ledger (mint / burn / transfer /
+/// recall / freeze / non-fungibles / metadata / fee-lock variants / round and epoch changes ...). Its own
+/// monitors report into a throw-away shard (they belong to other properties); only the lock events
+/// recorded by OUR sink are judged here.
+pub fn run_mix_shard(rng: &mut Rng, shard: &mut Shard, max_steps: u64) {
+    let mut side = Shard::new(shard.index, "side", shard.tier, shard.deadline);
+    side.max_samples = 0;
+    side.max_distinct = 0;
+    let mut world = rv_ledger::actions::World::new(&mut side, rng, 4);
+    world.ledger.walk_every = 0;
+    let events: Rc<RefCell<Vec<VerifEvent>>> = Rc::new(RefCell::new(vec![]));
+    let sink_events = events.clone();
+    // installed after World::new: replaces rv-ledger's counting sink on this thread
+    let prev = set_sink(Some(Box::new(move |e| sink_events.borrow_mut().push(e))));
+    let mut stats = EngineStats::default();
+    let mut n = 0u64;
+    while n < max_steps && !shard.time_up() {
+        n += 1;
+        events.borrow_mut().clear();
+        let label = world.step(&mut side, rng);
+        let evs = std::mem::take(&mut *events.borrow_mut());
+        shard.count("mix:steps");
+        shard.seen("mix:step_labels", label);
+        if let Some(f) = check_tx_events(&evs, &format!("rv-ledger mixed step: {label}"), shard, &mut stats) {
+            shard.violation(f.signature, f.detail);
+        }
+        side.violations.clear();
+        side.counters.clear();
+        side.sets.clear();
+    }
+    shard.max("engine_simultaneous_readers_on_one_substate", stats.max_readers as u64);
+    shard.max("engine_open_handles", stats.max_open as u64);
+    shard.max("engine_call_frame_depth", stats.max_depth as u64);
+    set_sink(prev);
+}
+
 // ---------------------------------------------------------------------------------------------
 pub fn spec() -> Spec {
     Spec::new(
         "C13",
         "exploration",
-        "(a) direct: generated histories of 1-2500 lock / unlock / is_locked / node_is_locked / get / get_mut / get-after-close operations on the real SubstateLocks over ≤8 substates on ≤3 nodes (the same substate key under several nodes and partitions), in phases biased to reader pile-ups, writer contention and draining, every answer compared with a reader/writer model, plus full audits of all keys, nodes and open handles; (b) in-engine: every SubstateLocks::lock/unlock of real transactions (faucet, transfers, failing transfers, auth failures, proofs, fee locks, re-entrant read/write calls of a Scrypto component, recursion to depth 12) reported by hook H2 and replayed against the same model. One evaluation = one lock-table operation judged; distinct = distinct sequences of (outcome, reader count).",
+        "(a) direct: generated histories of 1-2500 lock / unlock / is_locked / node_is_locked / get / get_mut / get-after-close operations on the real SubstateLocks over ≤8 substates on ≤3 nodes (the same substate key under several nodes and partitions), in phases biased to reader pile-ups, writer contention and draining, every answer compared with a reader/writer model, plus full audits of all keys, nodes and open handles; (b) in-engine: every SubstateLocks::lock/unlock of real transactions (faucet, transfers, failing transfers, auth failures, proofs, fee locks, re-entrant read/write calls of a Scrypto component, recursion to depth 12, and the shared mixed-ledger generator of rv-ledger: mint/burn/transfer/recall/freeze/non-fungibles/metadata/fee-lock variants/round and epoch changes) reported by hook H2 and replayed against the same model. One evaluation = one lock-table operation judged; distinct = distinct sequences of (outcome, reader count).",
     )
     .assume("unlock / get are only issued for handles the model holds open, except the deliberate get-after-close probe (unlock of an unknown handle panics by design)")
     .assume("in-engine: one lock table per kernel; a granted handle 0 marks a fresh table (handles restart at 0 per transaction); is_locked/node_is_locked are observed only in the direct workload")
@@ -563,6 +599,7 @@ pub fn spec() -> Spec {
     .floor("query:node_is_locked_false", 5_000)
     .floor("max:direct_simultaneous_readers_on_one_substate", 8)
     .floor("engine:transactions", 300)
+    .floor("mix:steps", 300)
     .floor("engine:hook_events", 50_000)
     .floor("engine:lock:GrantedWrite", 1_000)
     .floor("engine:read_granted_alongside_other_readers", 100)
@@ -594,6 +631,12 @@ pub fn run(args: &Args) -> i32 {
     let budget = Duration::from_secs(budget_secs(args.tier, 30, 420));
     report.run_shards(132, args.threads, budget, |_i, rng, shard| {
         run_engine_shard(rng, shard, tx_per_shard);
+    });
+    // (c) in-engine, shared mixed-ledger workload
+    let steps_per_shard = scaled(args, args.tier.pick(150, 10_000));
+    let budget = Duration::from_secs(budget_secs(args.tier, 15, 200));
+    report.run_shards(133, args.threads, budget, |_i, rng, shard| {
+        run_mix_shard(rng, shard, steps_per_shard);
     });
     report.finish()
 }
